@@ -22,6 +22,9 @@ func init() {
 				Quick: map[string]int{"STUFF": 2}, Witnesses: []string{"refused-then-plaintext"}},
 			{Pkg: "buffer", Entry: "VerifH10b", What: "a skipped (oversized) message is consumed in exactly its declared length, for every segmentation",
 				Quick: map[string]int{"LMAX": 2}, Thorough: map[string]int{"LMAX": 3}, Witnesses: []string{"multi-chunk"}},
+			{Pkg: "wire", Entry: "VerifH03s", What: "session level: a startup packet and K messages (Query, Parse, Bind, Execute, Sync, Terminate, one of symbolic type and body) served with all-at-once reads and with one byte per read give the same output and the same callback trace",
+				Quick: map[string]int{"K": 2}, Thorough: map[string]int{"K": 3},
+				Witnesses: []string{"terminate-followed-by-more", "two-callbacks"}},
 			{Pkg: "buffer", Entry: "VerifH18k", What: "the bytes of a later message never land in the window an earlier message was parsed from (K successive windows, symbolic sizes on both sides of the 4 KiB granule)",
 				Quick: map[string]int{"K": 5, "SMAX": 9000}, Witnesses: []string{"large-window", "same-array-reused"}},
 			{Pkg: "wire", Entry: "VerifH10c", What: "session: the message after a skipped one is interpreted from its own first byte",
